@@ -5,6 +5,7 @@ import (
 	"crypto/sha1"
 	"encoding/hex"
 	"encoding/json"
+	"encoding/xml"
 	"errors"
 	"fmt"
 	"io"
@@ -123,6 +124,8 @@ func buildC16Replies() []c16Reply {
 		c16Reply{"malformed:unbalanced-end", "</handshake>", rerr, false},
 		c16Reply{"malformed:double-lt", "<<handshake/>", rerr, false},
 		c16Reply{"malformed:mismatched-end", "<handshake></hand>", rerr, false},
+		c16Reply{"malformed:handshake-start-then-close", "<handshake>", rerr, false},
+		c16Reply{"malformed:handshake-bad-child", "<handshake><a></b></handshake>", rerr, false},
 		c16Reply{"malformed:bad-entity", "&nosuch;<handshake/>", rerr, false},
 		c16Reply{"malformed:truncated", "<handshake", rerr, false},
 		c16Reply{"malformed:invalid-utf8", "\xff\xfe<handshake/>", rerr, false},
@@ -476,35 +479,87 @@ func c16Header(in c16In) (prolog, rest string) {
 
 // what the server saw and did, reported back to Run
 type c16Srv struct {
-	accepted  bool
-	gotOpen   bool
-	text      string // character data of the <handshake> element
-	gotText   bool
-	note      string // "" or a timeout/error marker that must not occur in a sound run
-	probeSent bool
+	accepted     bool
+	gotOpen      bool
+	text         string // character data of the component's <handshake> element
+	gotText      bool   // the component sent a complete first element
+	notHandshake string // set when that element is not a childless jabber:component:accept handshake
+	note         string // "" or a timeout/error marker that must not occur in a sound run
+	probeSent    bool
 }
 
-// readUntil reads from c until the accumulated bytes contain stop (after the first
-// occurrence of from); returns everything read.
-func c16ReadUntil(c net.Conn, acc *[]byte, from, stop string, deadline time.Time) bool {
-	buf := make([]byte, 4096)
+// The server reads the component's side of the stream as XML, not as bytes: elements are
+// recognised by namespace-resolved name (encoding/xml tokenizer), whatever their spelling
+// (quote style, where xmlns is declared, <a/> versus <a></a>).
+const c16NSComponent = "jabber:component:accept"
+
+// c16NextStart returns the next start element; white space is skipped, other character
+// data outside an element is reported in stray.  ok is false on a read error / deadline /
+// an end element (returned in endEl when it is the stream's end).
+func c16NextStart(conn net.Conn, d *xml.Decoder, deadline time.Time) (se xml.StartElement, stray string, streamEnd bool, ok bool) {
 	for {
-		s := string(*acc)
-		if i := strings.Index(s, from); i >= 0 {
-			if strings.Contains(s[i+len(from):], stop) {
-				return true
+		conn.SetReadDeadline(deadline)
+		tok, err := d.Token()
+		if err != nil {
+			return se, stray, false, false
+		}
+		switch t := tok.(type) {
+		case xml.StartElement:
+			return t.Copy(), stray, false, true
+		case xml.EndElement:
+			return se, stray, t.Name.Space == c16NSStream && t.Name.Local == "stream", false
+		case xml.CharData:
+			if x := strings.TrimSpace(string(t)); x != "" {
+				stray += x
 			}
 		}
-		c.SetReadDeadline(deadline)
-		n, err := c.Read(buf)
-		*acc = append(*acc, buf[:n]...)
-		if err != nil && n == 0 {
+	}
+}
+
+// c16ElementText reads up to the end of the element just opened: its direct character
+// data, and whether it has element children.
+func c16ElementText(conn net.Conn, d *xml.Decoder, deadline time.Time) (text string, kids bool, ok bool) {
+	depth := 1
+	var b strings.Builder
+	for depth > 0 {
+		conn.SetReadDeadline(deadline)
+		tok, err := d.Token()
+		if err != nil {
+			return b.String(), kids, false
+		}
+		switch t := tok.(type) {
+		case xml.StartElement:
+			depth++
+			kids = true
+		case xml.EndElement:
+			depth--
+		case xml.CharData:
+			if depth == 1 {
+				b.Write(t)
+			}
+		}
+	}
+	return b.String(), kids, true
+}
+
+// c16AwaitStreamEnd consumes what the component sends until its </stream:stream>.
+func c16AwaitStreamEnd(conn net.Conn, d *xml.Decoder, deadline time.Time) bool {
+	for {
+		se, _, streamEnd, ok := c16NextStart(conn, d, deadline)
+		if streamEnd {
+			return true
+		}
+		if !ok {
+			return false
+		}
+		_ = se
+		if _, _, ok := c16ElementText(conn, d, deadline); !ok {
 			return false
 		}
 	}
 }
 
-// serve plays one case on one accepted connection.  sync1/sync2 implement the
+// serve plays one case on one accepted connection.  atProlog/released implement the
 // write-failure case (see Run).
 // end (may be nil) lets Run decide how a session that stays open is ended.
 func c16Serve(ln net.Listener, in c16In, atProlog <-chan struct{}, released chan<- struct{}, res *c16Srv, done chan<- struct{}, end <-chan string) {
@@ -519,13 +574,12 @@ func c16Serve(ln net.Listener, in c16In, atProlog <-chan struct{}, released chan
 	defer conn.Close()
 	res.accepted = true
 	deadline := time.Now().Add(c16Wait)
-	var acc []byte
-	if !c16ReadUntil(conn, &acc, "<stream:stream", ">", deadline) {
+	dec := xml.NewDecoder(conn)
+	if open, _, _, ok := c16NextStart(conn, dec, deadline); !ok || open.Name.Space != c16NSStream || open.Name.Local != "stream" {
 		res.note = "server: no stream header from the component"
 		return
 	}
 	res.gotOpen = true
-	acc = acc[:0]
 	if strings.HasPrefix(in.Pre, "badheader:") {
 		for _, v := range c16BadHeaders {
 			if "badheader:"+v.name == in.Pre {
@@ -535,7 +589,7 @@ func c16Serve(ln net.Listener, in c16In, atProlog <-chan struct{}, released chan
 			}
 		}
 		if in.Pre != "badheader:close" {
-			c16AnswerClose(conn, &acc)
+			c16AnswerClose(conn, dec)
 		}
 		return
 	}
@@ -560,18 +614,30 @@ func c16Serve(ln net.Listener, in c16In, atProlog <-chan struct{}, released chan
 		return
 	}
 	conn.Write([]byte(prolog + rest))
-	if !c16ReadUntil(conn, &acc, "<handshake>", "</handshake>", deadline) {
+	// the component's first element must be <handshake> in jabber:component:accept (inherited
+	// from its stream header or declared on the element); its character data is the digest
+	first, stray, _, ok := c16NextStart(conn, dec, deadline)
+	if !ok {
 		res.note = "server: no handshake element from the component"
 		return
 	}
-	s := string(acc)
-	i := strings.Index(s, "<handshake>")
-	j := strings.Index(s[i:], "</handshake>")
-	res.text, res.gotText = s[i+len("<handshake>"):i+j], true
-	if i != 0 {
-		res.note = "server: bytes before the handshake element: " + s[:i]
+	text, kids, ok := c16ElementText(conn, dec, deadline)
+	if !ok {
+		res.note = "server: the component's first element <" + first.Name.Local + "> never ended"
+		return
 	}
-	acc = append(acc[:0], s[i+j+len("</handshake>"):]...)
+	res.gotText = true
+	switch {
+	case first.Name.Space != c16NSComponent || first.Name.Local != "handshake":
+		res.notHandshake = first.Name.Space + " " + first.Name.Local
+	case kids:
+		res.notHandshake = "handshake element with child elements"
+	default:
+		res.text = text
+	}
+	if stray != "" {
+		res.note = "server: character data before the handshake element: " + stray
+	}
 	rp, _ := c16ReplyByName(in.Reply)
 	out := rp.wire
 	if rp.open && !in.Close {
@@ -592,7 +658,7 @@ func c16Serve(ln net.Listener, in c16In, atProlog <-chan struct{}, released chan
 				return
 			case "server-close": // close the stream from the server side, then wait for the peer
 				conn.Write([]byte("</stream:stream>"))
-				c16ReadUntil(conn, &acc, "", "</stream:stream>", time.Now().Add(c16Wait))
+				c16AwaitStreamEnd(conn, dec, time.Now().Add(c16Wait))
 				return
 			}
 		case <-time.After(2 * c16Wait):
@@ -600,18 +666,30 @@ func c16Serve(ln net.Listener, in c16In, atProlog <-chan struct{}, released chan
 			return
 		}
 	}
-	c16AnswerClose(conn, &acc)
+	c16AnswerClose(conn, dec)
 }
 
 // c16AnswerClose waits for the component's </stream:stream> and answers it, so that
 // XMPPTransport.Close returns as soon as a receive loop sees the answer.
-func c16AnswerClose(conn net.Conn, acc *[]byte) {
-	if c16ReadUntil(conn, acc, "", "</stream:stream>", time.Now().Add(c16Wait)) {
+func c16AnswerClose(conn net.Conn, dec *xml.Decoder) {
+	if c16AwaitStreamEnd(conn, dec, time.Now().Add(c16Wait)) {
 		conn.Write([]byte("</stream:stream>"))
 	}
 }
 
 // ---------------------------------------------------------------- running a case
+
+// c16TextObs: () nothing received | (text) a handshake element and its character data |
+// (-1) some other element.  The model's output is projected the same way (RunC16.v).
+func c16TextObs(srv *c16Srv) Sx {
+	switch {
+	case !srv.gotText:
+		return L()
+	case srv.notHandshake != "":
+		return L(Z(-1))
+	}
+	return L(SBytes(srv.text))
+}
 
 func c16Timeout(what string) Sx { return L(SBytes("TIMEOUT"), SBytes(what)) }
 
@@ -733,7 +811,7 @@ func (c16) Run(inp interface{}) Sx {
 	if srv.note != "" {
 		return L(SBytes("SERVER"), SBytes(srv.note))
 	}
-	return L(Opt(srv.gotText, SBytes(srv.text)), Z(errCode), Z(int64(state)), LS(evs), B(handled))
+	return L(c16TextObs(srv), Z(errCode), Z(int64(state)), LS(evs), B(handled))
 }
 
 // c16ErrCode: 0 nil, 1 ConnError non-permanent, 2 ConnError permanent, 3 other error
@@ -864,7 +942,7 @@ func c16RunReconnect(in c16In) Sx {
 		if srv.note != "" {
 			return L(SBytes("SERVER"), SBytes(fmt.Sprintf("connection %d: %s", k+1, srv.note)))
 		}
-		out = append(out, L(Opt(srv.gotText, SBytes(srv.text)), Z(c16ErrCode(cerr)), Z(int64(state)), B(handled)))
+		out = append(out, L(c16TextObs(srv), Z(c16ErrCode(cerr)), Z(int64(state)), B(handled)))
 	}
 	return LS(out)
 }
@@ -970,6 +1048,9 @@ func (c16) Oracle(inp interface{}, obs Sx) (string, string) {
 					return "shape", "shape"
 				}
 				if have = len(o.L[0].L) == 1; have {
+					if o.L[0].L[0].K != "s" {
+						return fmt.Sprintf("connection %d: the component's first element is not a handshake element in jabber:component:accept", k+1), "not-a-handshake-element"
+					}
 					got = string(bytesOf(o.L[0].L[0]))
 				}
 			}
@@ -1011,6 +1092,9 @@ func (c16) Oracle(inp interface{}, obs Sx) (string, string) {
 	if reaches && len(text.L) != 1 {
 		return "the server received no handshake element", "no-handshake-sent"
 	}
+	if len(text.L) == 1 && text.L[0].K != "s" {
+		return "the component's first element is not a handshake element in jabber:component:accept", "not-a-handshake-element"
+	}
 	if len(text.L) == 1 {
 		if msg, sig := c16DigestOracle(string(bytesOf(text.L[0])), in.ID, in.Secret); msg != "" {
 			if in.Hdr == "nsid" && sig == "digest-mismatch" {
@@ -1018,6 +1102,15 @@ func (c16) Oracle(inp interface{}, obs Sx) (string, string) {
 				msg = "stream header carries id='" + in.Wire + "' and x:id='not-the-stream-id' (another namespace); " + msg
 			}
 			return msg, sig
+		}
+	}
+	if !expectOK {
+		// "reported established": no Established event may reach the handler either, even if
+		// the state has moved on by the time Connect returns
+		for _, ev := range obs.L[3].L {
+			if len(ev.L) == 2 && ev.L[0].Z == 2 {
+				return "the event handler was told SessionEstablished although the reply was " + in.Reply + " (pre " + in.Pre + ")", "established-event-without-handshake"
+			}
 		}
 	}
 	return c16OutcomeOracle(expectOK, errCode, state, handled, in.Reply+" (pre "+in.Pre+")")
